@@ -13,6 +13,22 @@ from .loops import eval_spec, eval_spec_val, havoc
 MAX_PATHS = 1500
 
 
+def snapshot(v):
+    """entry-state copy of a (possibly nested) mutable record"""
+    if isinstance(v, SObj):
+        return SObj(v.cls, {k: snapshot(x) for k, x in v.fields.items()})
+    return v
+
+
+def adopt(obj, new):
+    """give *obj* (kept by identity) the field values of *new*, recursively for nested records"""
+    for k, x in new.fields.items():
+        if isinstance(x, SObj) and isinstance(obj.fields.get(k), SObj):
+            adopt(obj.fields[k], x)
+        else:
+            obj.fields[k] = x
+
+
 def find_contract(ex, module, qualname):
     key = '%s:%s' % (module, qualname)
     c = ex.eng.sidecar.contracts.get(key)
@@ -118,10 +134,9 @@ def call_contract(ex, module, qualname, argskw, node, self_obj=None):
     for pname in c.modifies:
         actual = bound[pname]
         if isinstance(actual, SObj):
-            snapshot = SObj(actual.cls, dict(actual.fields))
-            old_bound[pname] = snapshot
+            old_bound[pname] = snapshot(actual)
             hv = havoc(ex, actual, pname)
-            actual.fields.update(hv.fields)
+            adopt(actual, hv)
         else:
             raise Unsupported('callee %s modifies a non-object argument %s' % (key, pname))
         from .mutate import note_param_mutation
@@ -318,7 +333,7 @@ def run_path(ex, c, body, res):
     ex.old_env = {}
     ex.param_objs = {}
     for p, v in ex.env.items():
-        ex.old_env[p] = SObj(v.cls, dict(v.fields)) if isinstance(v, SObj) else v
+        ex.old_env[p] = snapshot(v)
         if isinstance(v, SObj):
             ex.param_objs[p] = v
     ex.entry_params = [(p, ex.old_env[p]) for p in ex.param_names]
@@ -373,7 +388,18 @@ def check_raise(ex, c, r):
     conds = []
     saved_env = ex.env
     ex.env = dict(ex.old_env)
-    for e, w in clauses:
-        conds.append(z3.BoolVal(True) if w is None else eval_spec(ex, w))
+    val = (r.payload or {}).get('value') if isinstance(r.payload, dict) else None
+    for j, (e, w) in enumerate(c.raises):
+        if not exc_matches(exc, e):
+            continue
+        cnd = z3.BoolVal(True) if w is None else eval_spec(ex, w)
+        at = c.raises_at[j] if j < len(c.raises_at) else {}
+        if at and val is not None:
+            # the reported position: line and column carried by the exception value
+            for fld, idx in (('lineno', 1), ('offset', 2)):
+                if fld in at:
+                    want = as_val(eval_spec_val(ex, at[fld]))
+                    cnd = z3.And(cnd, vl.get_fields(val.t)[idx] == want)
+        conds.append(cnd)
     ex.env = saved_env
     ex.oblige('raises', z3.Or(*conds), label='raises[%s]@%s' % (exc, getattr(r.node, 'lineno', '?')))
